@@ -1042,9 +1042,9 @@ def twin(tier, seed):
         run(h)
         evaluations += 1
         fam_count[h['script'].split('/')[0] + '/' + h['script'].split('/')[2]] += 1
-        if len(samples) < 2 and evaluations in (400, 5000):
+        if len(samples) < 2 and evaluations in (400, 2500):
             samples.append({'script': h['script'], 'steps': h['steps']})
-    nrand, length = (250, 36) if tier == 'quick' else (6000, 48)
+    nrand, length = (250, 36) if tier == 'quick' else (20000, 48)
     for k in range(nrand):
         h = random_history(rnd, length if k % 4 else length * 2)
         run(h)
@@ -1059,8 +1059,10 @@ def twin(tier, seed):
         'rule': 'one evaluation = one session of a real TorControlProtocol+TorState against a scripted Tor: optional global listeners before '
                 'bootstrap, a circuit-status/stream-status snapshot, then a history of CIRC/STREAM events interleaved with actions '
                 '(global add, obj.listen, obj.unlisten, when_built, when_closed, close, release of a close acknowledgement). Systematic part: '
-                '7 circuit and 8 stream life-cycle scripts x action families (listeners: 1-2 of 6 listener actions; waits: 1-2 of when_built/'
-                'when_closed; close: 1-2 close requests with 0-2 acknowledgement releases in every order; close+wait/listener mixes) x every '
+                '7 circuit and 8 stream life-cycle scripts (built-then-closed, failed/closed before BUILT, snapshot objects, never gone, id '
+                'reused, detach/re-attach, circuit closing under a stream) x action families (listeners: 1-2 [thorough: 1-3] of global add / '
+                'obj.listen / obj.unlisten of an early or a late listener / repeated add; waits: 1-2 [1-3] of when_built/when_closed; close: '
+                '1-2 [1-3] close requests with 0-1 [0-2] acknowledgement releases in every order; close+wait / close+listener mixes) x every '
                 'placement of the actions in the gaps of the script (invalid placements, e.g. an action on an object not yet seen, are not '
                 'run). Random part: seeded histories over circuits 1-3 / streams 1-3 (ids reused after close, relays in and not in the '
                 'consensus, circuits closing under attached streams, detach/re-attach), 30%% delivered with consecutive events coalesced '
@@ -1069,5 +1071,5 @@ def twin(tier, seed):
                 % (dict(fam_count), PER_KEY_CAP, dict(perkey)),
         'bounds': ('tier %s: scripts of <= 6 events with <= %d actions placed at every position; %d random histories of %d (every 4th: %d) steps; '
                    '<= 3 circuits, <= 3 streams, <= 3 listeners per kind, paths <= 3 hops'
-                   % (tier, 2 if tier == 'quick' else 3, nrand, length, length * 2)),
+                   % (tier, 3 if tier == 'quick' else 5, nrand, length, length * 2)),
     }
